@@ -46,6 +46,8 @@ pub enum Form {
     NewSpanAsync,
     ResultFn,
     PanicLvlFn,
+    /// a leveled macro with a panic level: `#[emit::info_span(panic_lvl: "warn")]` and `#[emit::debug_span(ok_lvl: .., panic_lvl: ..)]`
+    LeveledPanicLvlFn,
     /// Result-aware and with a panic level: `ok_lvl`, `err_lvl`, `panic_lvl`
     ResultPanicLvlFn,
     /// leveled macro with Result-aware completion: `#[emit::info_span(ok_lvl: ..)]`
@@ -658,6 +660,11 @@ fn span_when_fn(w: &Arc<World>, st: &mut Strand, sid: u32, enabled: bool, body: 
     body_sync(w, st, sid, enabled, body, exit)
 }
 
+#[emit::info_span(rt: &w.rt, panic_lvl: "warn", "span {sid}", sid)]
+fn span_info_panic_lvl_fn(w: &Arc<World>, st: &mut Strand, sid: u32, enabled: bool, body: &Arc<Vec<S>>, exit: Exit) {
+    body_sync(w, st, sid, enabled, body, exit)
+}
+
 #[emit::warn_span(rt: &w.rt, "span {sid}", sid)]
 fn span_warn_fn(w: &Arc<World>, st: &mut Strand, sid: u32, enabled: bool, body: &Arc<Vec<S>>, exit: Exit) {
     body_sync(w, st, sid, enabled, body, exit)
@@ -981,6 +988,10 @@ fn run_span_sync(w: &Arc<World>, st: &mut Strand, n: &S) {
             lg(&w.log).spans[ix].expect_lvl = Some(Some("warn"));
             span_warn_fn(w, st, sid, enabled, body, exit)
         }
+        Form::LeveledPanicLvlFn => {
+            lg(&w.log).spans[ix].expect_lvl = Some(Some("info"));
+            span_info_panic_lvl_fn(w, st, sid, enabled, body, exit)
+        }
         Form::SetupFn => {
             lg(&w.log).spans[ix].needs_own_ids = true;
             span_setup_fn(w, st, sid, enabled, body, exit)
@@ -1108,7 +1119,7 @@ fn run_span_sync(w: &Arc<World>, st: &mut Strand, n: &S) {
                 // panic level if one was set, else the error level
                 let skip = (sid / 6) % 4;
                 l.spans[ix].expect_lvl = Some(Some(if skip != 3 { "warn" } else { "error" }));
-            } else if l.spans[ix].form == Form::PanicLvlFn {
+            } else if l.spans[ix].form == Form::PanicLvlFn || l.spans[ix].form == Form::LeveledPanicLvlFn {
                 l.spans[ix].expect_lvl = Some(Some("warn"));
             } else if l.spans[ix].form == Form::ResultPanicLvlFn {
                 l.spans[ix].expect_lvl = Some(Some("debug"));
@@ -1602,9 +1613,9 @@ pub fn gen_nodes(ch: &mut Choices, cfg: &GenCfg, depth: u32, budget: &mut u32, n
                 *next += 1;
                 let sid = *next;
                 let form = if c05 && is_async {
-                    *ch.pick(&[Form::Manual, Form::Manual, Form::Manual, Form::SyncFn, Form::ResultFn, Form::PanicLvlFn, Form::ResultPanicLvlFn, Form::InfoResultFn, Form::WhenFn, Form::WarnFn, Form::NewInfoSpanSync, Form::GuardFn, Form::NewSpanSync, Form::DefaultCompl, Form::DefaultCompl, Form::SetupFn, Form::ExplicitIdFn, Form::AsyncFn, Form::AsyncFn, Form::NewSpanAsync])
+                    *ch.pick(&[Form::Manual, Form::Manual, Form::Manual, Form::SyncFn, Form::ResultFn, Form::PanicLvlFn, Form::LeveledPanicLvlFn, Form::ResultPanicLvlFn, Form::InfoResultFn, Form::WhenFn, Form::WarnFn, Form::NewInfoSpanSync, Form::GuardFn, Form::NewSpanSync, Form::DefaultCompl, Form::DefaultCompl, Form::SetupFn, Form::ExplicitIdFn, Form::AsyncFn, Form::AsyncFn, Form::NewSpanAsync])
                 } else if c05 {
-                    *ch.pick(&[Form::Manual, Form::Manual, Form::Manual, Form::SyncFn, Form::ResultFn, Form::PanicLvlFn, Form::ResultPanicLvlFn, Form::InfoResultFn, Form::WhenFn, Form::WarnFn, Form::NewInfoSpanSync, Form::GuardFn, Form::NewSpanSync, Form::DefaultCompl, Form::DefaultCompl, Form::SetupFn, Form::ExplicitIdFn])
+                    *ch.pick(&[Form::Manual, Form::Manual, Form::Manual, Form::SyncFn, Form::ResultFn, Form::PanicLvlFn, Form::LeveledPanicLvlFn, Form::ResultPanicLvlFn, Form::InfoResultFn, Form::WhenFn, Form::WarnFn, Form::NewInfoSpanSync, Form::GuardFn, Form::NewSpanSync, Form::DefaultCompl, Form::DefaultCompl, Form::SetupFn, Form::ExplicitIdFn])
                 } else if is_async {
                     *ch.pick(&[Form::AsyncFn, Form::AsyncFn, Form::NewSpanAsync, Form::SyncFn, Form::NewSpanSync, Form::ResultFn, if TP { Form::SyncFn } else { Form::WhenFn }, Form::WarnFn, Form::ExplicitIdFn])
                 } else {
